@@ -26,7 +26,7 @@ RULE = (
     "unresolvable; backing {files in 1 root, files in 2 roots, put_string}. distinct = by (file set texts, "
     "backing); non-trivial = at least one reference crosses directories with a relative URI and resolves."
 )
-RULE += ' added since: twin references to one target, falsy include arguments, includes executed inside defs (context stack modelled), a base that itself includes a file, twin base templates in different directories, an inheritable namespace declared in the inheriting template, next-key probes. directed: templates whose URIs differ only in punctuation each declaring a same-named namespace and included into one render; the API (get_namespace / get_template / include_file) of a named file namespace declared in a deeper template. 2-3 nameless <%namespace import=> tags back to back / space separated / one per line. relative <%inherit> URIs in chains of 3-4 templates over directories (direct / include / namespace; decoys).'
+RULE += ' added since: twin references to one target, falsy include arguments, includes executed inside defs (context stack modelled), a base that itself includes a file, twin base templates in different directories, an inheritable namespace declared in the inheriting template, next-key probes. directed: templates whose URIs differ only in punctuation each declaring a same-named namespace and included into one render; the API (get_namespace / get_template / include_file) of a named file namespace declared in a deeper template. 2-3 nameless <%namespace import=> tags back to back / space separated / one per line. relative <%inherit> URIs in chains of 3-4 templates over directories (direct / include / namespace; decoys). module namespaces with an inline def named like a module callable; the same relative URI asked for from three depths in one render.'
 ASSUMPTIONS = [
     "put_string-backed sets use relative URIs without dot segments only (keys are literal URIs)",
     "templates are identified by a tag in their text, not by Template.uri (which keeps the joined spelling)",
